@@ -11,58 +11,68 @@ use sophia_api::graph::{Graph, MutableGraph};
 use sophia_api::term::matcher::{Any, Not};
 use sophia_api::term::TermKind;
 
-// rows: (a, b, o_i) for three different objects; everything is an IRI; the residual matcher on the
-// object position is TermKind::BlankNode, which rejects all three rows.
+// rows: three rows that differ in EVERY non-constant position (so that each cached-flag refresh site is exercised);
+// every term is an IRI. Each residual position gets a TermKind matcher whose kind is symbolic: BlankNode rejects all
+// rows at that position, Iri accepts all — so whichever `continue`/tail-call site skips a row, a recursive
+// implementation re-enters `next` once per skipped row and violates the recursion bound.
 
 #[cfg(kani)]
-fn objs() -> [VT; 3] {
-    [VT(2), VT(3), VT(4)]
+fn kind() -> TermKind {
+    if kani::any() { TermKind::BlankNode } else { TermKind::Iri }
 }
 
 macro_rules! graph_harness {
-    ($name:ident, $G:ty, $sm:expr) => {
+    ($name:ident, $G:ty, $sm:expr, $svar:expr) => {
         #[cfg(kani)]
         #[kani::proof]
         #[kani::unwind(8)]
         pub fn $name() {
             let mut g = <$G>::new();
-            for o in objs() {
-                g.insert(VT(0), VT(1), o).unwrap();
+            // subjects vary only when the subject is not the constant of the pattern
+            let rows: [[u8; 3]; 3] = if $svar { [[0, 1, 2], [1, 2, 3], [2, 3, 4]] } else { [[0, 1, 2], [0, 2, 3], [0, 3, 4]] };
+            for r in rows {
+                g.insert(VT(r[0]), VT(r[1]), VT(r[2])).unwrap();
             }
-            let mut it = g.triples_matching($sm, Any, TermKind::BlankNode);
+            let (kp, ko) = (kind(), kind());
+            let mut it = g.triples_matching($sm, kp, ko);
             let first = it.next();
             kani::cover!(first.is_none(), "three rows skipped, iterator exhausted");
-            assert!(first.is_none());
+            kani::cover!(first.is_some(), "a row is returned");
             std::mem::forget(it);
         }
     };
 }
-graph_harness!(c16_light_graph_spo, GenericLightGraph<VTI>, Any);
-graph_harness!(c16_fast_graph_spo, GenericFastGraph<VTI>, Any);
-graph_harness!(c16_light_graph_bc, GenericLightGraph<VTI>, [VT(0)]);
-graph_harness!(c16_fast_graph_bc, GenericFastGraph<VTI>, [VT(0)]);
+graph_harness!(c16_light_graph_spo, GenericLightGraph<VTI>, kind(), true);
+graph_harness!(c16_fast_graph_spo, GenericFastGraph<VTI>, kind(), true);
+graph_harness!(c16_light_graph_bc, GenericLightGraph<VTI>, [VT(0)], false);
+graph_harness!(c16_fast_graph_bc, GenericFastGraph<VTI>, [VT(0)], false);
 
 macro_rules! dataset_harness {
-    ($name:ident, $D:ty, $sm:expr, $gm:expr) => {
+    ($name:ident, $D:ty, $sm:expr, $gm:expr, $svar:expr, $gvar:expr) => {
         #[cfg(kani)]
         #[kani::proof]
         #[kani::unwind(8)]
         pub fn $name() {
             let mut d = <$D>::new();
-            for o in objs() {
-                d.insert(VT(0), VT(1), o, Some(VT(5))).unwrap();
+            let rows: [[u8; 3]; 3] = if $svar { [[0, 1, 2], [1, 2, 3], [2, 3, 4]] } else { [[0, 1, 2], [0, 2, 3], [0, 3, 4]] };
+            let gs: [u8; 3] = if $gvar { [3, 4, 5] } else { [5, 5, 5] };
+            let mut i = 0;
+            while i < 3 {
+                d.insert(VT(rows[i][0]), VT(rows[i][1]), VT(rows[i][2]), Some(VT(gs[i]))).unwrap();
+                i += 1;
             }
-            let mut it = d.quads_matching($sm, Any, TermKind::BlankNode, $gm);
+            let (kp, ko) = (kind(), kind());
+            let mut it = d.quads_matching($sm, kp, ko, $gm);
             let first = it.next();
             kani::cover!(first.is_none(), "three rows skipped, iterator exhausted");
-            assert!(first.is_none());
+            kani::cover!(first.is_some(), "a row is returned");
             std::mem::forget(it);
         }
     };
 }
-dataset_harness!(c16_light_dataset_gspo, GenericLightDataset<VTI>, Any, Any);
-dataset_harness!(c16_fast_dataset_gspo, GenericFastDataset<VTI>, Any, Any);
-dataset_harness!(c16_light_dataset_bcd, GenericLightDataset<VTI>, Any, [Some(VT(5))]);
-dataset_harness!(c16_fast_dataset_bcd, GenericFastDataset<VTI>, Any, [Some(VT(5))]);
-dataset_harness!(c16_light_dataset_cd, GenericLightDataset<VTI>, [VT(0)], [Some(VT(5))]);
-dataset_harness!(c16_fast_dataset_cd, GenericFastDataset<VTI>, [VT(0)], [Some(VT(5))]);
+dataset_harness!(c16_light_dataset_gspo, GenericLightDataset<VTI>, kind(), Some(kind()), true, true);
+dataset_harness!(c16_fast_dataset_gspo, GenericFastDataset<VTI>, kind(), Some(kind()), true, true);
+dataset_harness!(c16_light_dataset_bcd, GenericLightDataset<VTI>, kind(), [Some(VT(5))], true, false);
+dataset_harness!(c16_fast_dataset_bcd, GenericFastDataset<VTI>, kind(), [Some(VT(5))], true, false);
+dataset_harness!(c16_light_dataset_cd, GenericLightDataset<VTI>, [VT(0)], [Some(VT(5))], false, false);
+dataset_harness!(c16_fast_dataset_cd, GenericFastDataset<VTI>, [VT(0)], [Some(VT(5))], false, false);
